@@ -9,7 +9,8 @@ RULE = ("single-escape sweep: all 256 \\xHH (both hex cases, \\x and \\X), all 2
         "random sample, every single-character escape - each in single, double, triple-single and triple-double "
         "quoting, alone and embedded; the raw forms with the same bodies (verbatim expected); bytes literals (\\x, "
         "\\OOO, single-character escapes, literal UTF-8) in every quoting and b/B x r/R prefix; random strings / byte "
-        "strings rendered in every applicable style with a random escape-or-verbatim choice per character; observed: "
+        "strings rendered in every applicable style with a random escape-or-verbatim choice per character; malformed and "
+        "code-point escapes (also after a decoded prefix) alternating with well-formed probe literals in one driver thread; observed: "
         "value of executing a program consisting of the literal; non-trivial = literal containing an escape, a quote "
         "or a non-ASCII character; distinct = distinct literal text")
 ASSUMPTIONS = ["\\u / \\U inside bytes literals are not exercised (not pinned down by the statement)",
